@@ -6,7 +6,8 @@
 // (text = COM_QUERY, binary = prepared statement) x reader (owner alpha / other keys bravo / no
 // keys) x class of the stored value of column c (envelope of alpha, envelope of bravo, damaged
 // envelope, plain garbage, NULL, empty) x row shape (c alone; c after a revealed typed column d;
-// c before d; two rows revealable-then-class; two rows class-then-revealable) x EOF mode
+// c before d; two rows revealable-then-class; two rows class-then-revealable; c selected under
+// a column alias; c selected through a table alias) x EOF mode
 // (thorough: both). A column without client_id is opened with the keys of the CONNECTION's
 // client: a value is revealable for a reader iff it is an intact envelope of that reader.
 //
@@ -71,6 +72,9 @@ type myCase struct {
 	Class    string  `json:"stored_value_class"`
 	Shape    string  `json:"row_shape"`
 	DepEOF   bool    `json:"client_deprecate_eof"`
+	// Labels are the generalised key parts (type family, policy, shape) the full run gave the
+	// finding this case stands for; a replay of the single case reports under the same key
+	Labels *[3]string `json:"key_labels,omitempty"`
 }
 
 type myCfg struct {
@@ -99,7 +103,7 @@ func (c myCfg) policy() string {
 }
 
 var myClasses = []string{"envelope-alpha", "envelope-bravo", "damaged-envelope", "garbage", "null", "empty"}
-var myShapes = []string{"c-alone", "c-after-d", "c-before-d", "two-rows-revealable-first", "two-rows-revealable-second"}
+var myShapes = []string{"c-alone", "c-after-d", "c-before-d", "two-rows-revealable-first", "two-rows-revealable-second", "c-aliased", "table-aliased"}
 var myReaders = map[string][]byte{"owner": fx.Alpha, "other-keys": fx.Bravo, "no-keys": fx.NoKeys}
 
 func myPlain(typ string, k int) []byte {
@@ -216,7 +220,22 @@ func (f *myFails) emit(r *ev.Run) {
 		if len(fams[x.Proto+"|"+x.Class+"|"+x.Failure+"|"+polOf(x)+"|"+shapeOf(x)]) == 2 {
 			fam = "any-type"
 		}
-		r.Violation(fmt.Sprintf("C19/mysql/%s/%s/%s/%s/policy=%s/%s", fam, x.Proto, x.Class, x.Failure, polOf(x), shapeOf(x)), x.Msg, x.Case)
+		labels := [3]string{fam, polOf(x), shapeOf(x)}
+		failure := x.Failure
+		if (x.Shape == "c-aliased" || x.Shape == "table-aliased") && shapeOf(x) != "any-shape" {
+			// whatever goes wrong only when the column is selected under an alias is one finding: the
+			// announcement (looked up by alias) and the encoding of the value (declared type) disagree
+			labels = [3]string{"any-type", "any", "alias"}
+			failure = "declared-type-not-announced-under-an-alias"
+			x.Proto, x.Class = "any-protocol", "any-value"
+		}
+		x.Failure = failure
+		if x.Case.Labels != nil {
+			labels = *x.Case.Labels // replay of one case of a finding
+		}
+		cs := x.Case
+		cs.Labels = &labels
+		r.Violation(fmt.Sprintf("C19/mysql/%s/%s/%s/%s/policy=%s/%s", labels[0], x.Proto, x.Class, x.Failure, labels[1], labels[2]), x.Msg, cs)
 	}
 }
 
@@ -324,7 +343,7 @@ func (w *myWorld) run(cs myCase) {
 		t.Rows = append(t.Rows, [][]byte{[]byte(strconv.Itoa(i + 1)), []byte("p"), cell, dCell(rw.k)})
 		exp = append(exp, expT{cell, rev, rw.class, rw.k})
 	}
-	list := map[string]string{"c-alone": "c", "c-after-d": "d, c", "c-before-d": "c, d"}[cs.Shape]
+	list := map[string]string{"c-alone": "c", "c-after-d": "d, c", "c-before-d": "c, d", "c-aliased": "c", "table-aliased": "c"}[cs.Shape]
 	if list == "" {
 		list = "id, c"
 	}
@@ -332,6 +351,12 @@ func (w *myWorld) run(cs myCase) {
 	di := map[string]int{"d, c": 0, "c, d": 1}[list]
 	hasD := cs.Shape == "c-after-d" || cs.Shape == "c-before-d"
 	sql := "select " + list + " from t"
+	switch cs.Shape {
+	case "c-aliased":
+		sql = "select c as x from t"
+	case "table-aliased":
+		sql = "select y.c from t as y"
+	}
 
 	cl, err := mycheck.Open(w.env, reader, db, cs.DepEOF)
 	if err != nil {
@@ -361,7 +386,7 @@ func (w *myWorld) run(cs myCase) {
 		viol(coarse, failure, format, a...)
 	}
 	defer func() {
-		r.Distinct(fmt.Sprintf("mysql|%s|%s|%s|%s|%s|%s|%s", c.Type, c.policy(), cs.Proto, cs.Reader, cs.Class, cs.Shape, outcome))
+		r.Distinct(fmt.Sprintf("mysql|%s|%s|%s|%s|%s|%s|%s|%s|deof=%v", c.Type, c.Envelope, c.policy(), cs.Proto, cs.Reader, cs.Class, cs.Shape, outcome, cs.DepEOF))
 		r.Class("mysql-"+outcome, 1)
 	}()
 	if res.Failure != "" {
